@@ -111,6 +111,39 @@ static int op_invert(int argc, tok_t *a, out_t *o) {
   vars_clear(&V); return 0;
 }
 
+/* alias_root <root> <u> 0 <nth> v0..v3 (return value: exact or not);  alias_remove <dest> <src> <f> 0 v0..v3 (return value: the
+   multiplicity);  alias_bin_ui <r> <n> 0 <k> v0..v3 */
+static int op_root(int argc, tok_t *a, out_t *o) {
+  long ix[2]; vars_t V;
+  if (argc != 8 || !all_num(argc, a) || !ids(a, 2, ix, -1) || a[3].neg || a[3].n > 1) return -1;
+  unsigned long nth = tok_ulong(&a[3]);
+  vars_init(&V, a + 4);
+  int neg_even = V.v[ix[1]]->_mp_size < 0 && (nth & 1) == 0;
+  int ret = 0;
+  int e = GUARD(ret = mpz_root(V.v[ix[0]], V.v[ix[1]], nth));
+  if (e) out_err(o, neg_even ? "sqrtneg" : "div0"); else { out_long(o, ret != 0); vars_out(o, &V, 0); }
+  vars_clear(&V); return 0;
+}
+static int op_remove(int argc, tok_t *a, out_t *o) {
+  long ix[3]; vars_t V;
+  if (argc != 8 || !all_num(argc, a) || !ids(a, 3, ix, -1)) return -1;
+  vars_init(&V, a + 4);
+  mp_bitcnt_t ret = 0;
+  int e = GUARD(ret = mpz_remove(V.v[ix[0]], V.v[ix[1]], V.v[ix[2]]));
+  if (e) out_err(o, "div0"); else { out_ulong(o, ret); vars_out(o, &V, 0); }
+  vars_clear(&V); return 0;
+}
+static int op_bin_ui(int argc, tok_t *a, out_t *o) {
+  long ix[2]; vars_t V;
+  if (argc != 8 || !all_num(argc, a) || !ids(a, 2, ix, -1) || a[3].neg || a[3].n > 1) return -1;
+  unsigned long k = tok_ulong(&a[3]);
+  if (k > 200) return -1;
+  vars_init(&V, a + 4);
+  mpz_bin_ui(V.v[ix[0]], V.v[ix[1]], k);
+  vars_out(o, &V, 0);
+  vars_clear(&V); return 0;
+}
+
 /* ---- mpf: alias_fdiv / alias_fmul <r> <u> <v> 0 A0 A1 A2, alias_fsqrt <r> <u> 0 0 A0 A1 A2, alias_fdiv_ui <r> <u> 0 <ui> A0 A1 A2
    three mpf variables, each given as the token group `prec size exp [limbs]` and held in a block of max (prec + 1, |size|)
    limbs with `prec` in the _mp_prec field (more limbs than prec + 1: the state mpf_set_prec_raw leaves behind); stale data
@@ -155,7 +188,13 @@ static int frun(int argc, tok_t *a, out_t *o, int which) {
   case 0: e = GUARD(mpf_div(F[r].f, F[u].f, F[v].f)); break;
   case 1: e = GUARD(mpf_mul(F[r].f, F[u].f, F[v].f)); break;
   case 2: e = GUARD(mpf_sqrt(F[r].f, F[u].f)); break;
-  default: e = GUARD(mpf_div_ui(F[r].f, F[u].f, ui)); break;
+  case 3: e = GUARD(mpf_div_ui(F[r].f, F[u].f, ui)); break;
+  case 4: e = GUARD(mpf_floor(F[r].f, F[u].f)); break;
+  case 5: e = GUARD(mpf_ceil(F[r].f, F[u].f)); break;
+  case 6: e = GUARD(mpf_trunc(F[r].f, F[u].f)); break;
+  case 7: if (ui > 100000) { f_clear(F); return -1; } e = GUARD(mpf_mul_2exp(F[r].f, F[u].f, ui)); break;
+  case 8: if (ui > 100000) { f_clear(F); return -1; } e = GUARD(mpf_div_2exp(F[r].f, F[u].f, ui)); break;
+  default: e = GUARD(mpf_ui_div(F[r].f, ui, F[v].f)); break;
   }
   if (e) out_err(o, which == 2 ? "sqrtneg" : "div0"); else f_out(o, F);
   f_clear(F); return 0;
@@ -164,9 +203,20 @@ static int op_fdiv(int argc, tok_t *a, out_t *o) { return frun(argc, a, o, 0); }
 static int op_fmul(int argc, tok_t *a, out_t *o) { return frun(argc, a, o, 1); }
 static int op_fsqrt(int argc, tok_t *a, out_t *o) { return frun(argc, a, o, 2); }
 static int op_fdiv_ui(int argc, tok_t *a, out_t *o) { return frun(argc, a, o, 3); }
+/* alias_ffloor / alias_fceil / alias_ftrunc <r> <u> 0 0 A0 A1 A2;  alias_fmul_2exp / alias_fdiv_2exp <r> <u> 0 <cnt> A0 A1 A2;
+   alias_fui_div <r> 0 <v> <ui> A0 A1 A2 */
+static int op_ffloor(int argc, tok_t *a, out_t *o) { return frun(argc, a, o, 4); }
+static int op_fceil(int argc, tok_t *a, out_t *o) { return frun(argc, a, o, 5); }
+static int op_ftrunc(int argc, tok_t *a, out_t *o) { return frun(argc, a, o, 6); }
+static int op_fmul_2exp(int argc, tok_t *a, out_t *o) { return frun(argc, a, o, 7); }
+static int op_fdiv_2exp(int argc, tok_t *a, out_t *o) { return frun(argc, a, o, 8); }
+static int op_fui_div(int argc, tok_t *a, out_t *o) { return frun(argc, a, o, 9); }
 
 const opdef_t ops_alias2[] = {
   {"alias_fdiv", op_fdiv}, {"alias_fmul", op_fmul}, {"alias_fsqrt", op_fsqrt}, {"alias_fdiv_ui", op_fdiv_ui},
+  {"alias_ffloor", op_ffloor}, {"alias_fceil", op_fceil}, {"alias_ftrunc", op_ftrunc}, {"alias_fmul_2exp", op_fmul_2exp},
+  {"alias_fdiv_2exp", op_fdiv_2exp}, {"alias_fui_div", op_fui_div},
+  {"alias_root", op_root}, {"alias_remove", op_remove}, {"alias_bin_ui", op_bin_ui},
   {"alias_mul", op_mul}, {"alias_addmul", op_addmul}, {"alias_submul", op_submul},
   {"alias_gcdext", op_gcdext}, {"alias_powm", op_powm}, {"alias_powm_ui", op_powm_ui},
   {"alias_sqrt", op_sqrt}, {"alias_lcm", op_lcm}, {"alias_invert", op_invert},
